@@ -3,7 +3,6 @@
     that needs a fact about them takes it as an explicit premise. *)
 From PdfV Require Import Base.Prelude Gen.Generated Codec.Model.
 
-Record params := { p_predictor : Z; p_colors : Z; p_bpc : Z; p_columns : Z; p_early : Z }.
 (* enc.rs: impl Default for LZWFlateParams *)
 Definition default_params : params :=
   {| p_predictor := 1; p_colors := 1; p_bpc := 8; p_columns := 1; p_early := 1 |}.
@@ -17,25 +16,27 @@ Section Ext.
   Variable lzw_dec : bool -> bytes -> res bytes.   (* weezl decoder, Msb, 8; true = with_tiff_size_switch *)
   Variable lzw_enc : bytes -> res bytes.           (* weezl encoder, Msb, 8 *)
 
-  (* enc.rs: flate_decode *)
+  (* enc.rs: flate_decode — zlib framing first, raw deflate as fall-back, then the predictor *)
   Definition flate_decode (p : params) (data : bytes) : res bytes :=
-    let nc := as_usize (p_colors p) in
-    let cols := as_usize (p_columns p) in
-    if 18446744073709551616 <=? cols * nc then Panic 104 else      (* columns * n_components *)
     match inflate_zlib data with
-    | Ok d => unpredict (p_predictor p) (p_colors p) (p_columns p) d
-    | _ => match inflate_raw data with
-           | Ok d => unpredict (p_predictor p) (p_colors p) (p_columns p) d
-           | _ => Err 4
-           end
+    | Ok d => unpredict p d
+    | Err _ => match inflate_raw data with
+               | Ok d => unpredict p d
+               | Err _ => Err 4
+               | Panic s => Panic s
+               | OutOfFuel => OutOfFuel
+               end
+    | Panic s => Panic s
+    | OutOfFuel => OutOfFuel
     end.
 
   (* enc.rs: flate_encode *)
   Definition flate_encode (data : bytes) : bytes := deflate_zlib data.
 
-  (* enc.rs: lzw_decode — the predictor is ignored *)
+  (* enc.rs: lzw_decode — weezl (Msb, 8 bit symbols; EarlyChange != 0 selects the TIFF size switch),
+     then the predictor *)
   Definition lzw_decode (p : params) (data : bytes) : res bytes :=
-    lzw_dec (negb (p_early p =? 0)%Z) data.
+    do d <- lzw_dec (negb (p_early p =? 0)%Z) data; unpredict p d.
 
   (* enc.rs: lzw_encode *)
   Definition lzw_encode (p : params) (data : bytes) : res bytes :=
